@@ -189,6 +189,21 @@ def check(run: Run) -> None:
         from . import c01
         c01.failed_cycle_not_resumed(run, "C15.h")
 
+    with run.obligation("C15.i", "K2", "a node whose exception propagates to an enclosing try_except / capturing map_ keeps its own timer: the "
+                        "scheduler re-arm also happens on the exceptional exit of the user callback (KNOWN FINDING F-C15-2 on the current tree)"):
+        fa = R.fn(run, NODE, "evaluate_impl")
+        fl = R.flow(run, fa)
+        bare = [n for n in fl.nodes_of(R.call_is(callee=r"callbacks\(context\)\.evaluate")) if "fallback" not in fl.cfg.nodes[n].ctx]
+        run.sites(len(bare), 1, "propagating user evaluate")
+        rearm = R.either(R.call_is(name="advance", recv=r"sched"), R.call_is(name="schedule_node"))
+        R.require_nodes(run, fl, rearm, "scheduler re-arm", 2)
+        w = fl.must_follow(lambda n: n.id in bare, rearm, exits="exc", first_edge=lambda lab: lab == "eh")
+        run.count(1, "C15.i")
+        if w is not None:
+            run.finding("C15.i", "evaluate_impl:propagating-throw-skips-rearm", "when the user callback of a node without error capture throws, "
+                        "evaluate_impl leaves without sched.advance()/schedule_node: if the exception is absorbed by an enclosing try_except or "
+                        "capturing map_, a self-scheduling node never wakes again: " + fl.path_text(w), loc=fl.cfg.describe(w[0][0]))
+
     with run.obligation("C15.e", "K4", "captures_errors is set only by with_error_capture / map_node_with_error_capture"):
         ws = [w for w in R.field_writers(t, "captures_errors") if w[3] == "store"]
         run.sites(len(ws), 2, "captures_errors stores")
